@@ -187,6 +187,13 @@ class LeanSide:
                 res["ok"] = False
                 res["failures"].append(f"forbidden construct {m.group(0)!r} in {module}")
         # build
+        # the driver first and on its own: a property module that no longer checks must not keep the (regenerated)
+        # translated code out of the driver the correspondence runs
+        pd = subprocess.run(["lake", "build", "driver"], cwd=LEAN_DIR, capture_output=True, text=True)
+        if pd.returncode != 0:
+            res["ok"] = False
+            res["failures"].append("lake build driver failed: " + " | ".join(
+                [l for l in (pd.stdout + pd.stderr).splitlines() if "error" in l.lower()][:6]))
         targets = self.prop_modules + ["driver"]
         cmd = ["lake", "build"] + targets
         p = subprocess.run(cmd, cwd=LEAN_DIR, capture_output=True, text=True)
